@@ -45,13 +45,13 @@ type Req struct {
 }
 
 type Step struct {
-	Kind   string `json:"kind"` // send | release | sleep | tick | nearexpire | expire | flood
+	Kind string `json:"kind"` // send | release | sleep | tick | nearexpire | expire | flood
 	// (flood: the peer sends Copies further confirmable requests with message IDs of their own that
 	// the handler merely acknowledges - the traffic of a busy, long-lived connection between the
 	// examined requests and their retransmissions)
-	Req    int    `json:"req"`
-	Copies int    `json:"copies,omitempty"`
-	Ms     int    `json:"ms,omitempty"`
+	Req    int `json:"req"`
+	Copies int `json:"copies,omitempty"`
+	Ms     int `json:"ms,omitempty"`
 }
 
 type Scenario struct {
